@@ -63,3 +63,11 @@ def run(repo, res, tier):
     common.lexer_yield_rule(repo, res)
     from .. import effects
     effects.rule_e5(repo, res)
+    # the tokens the skip helpers discard silently are exactly the grammar's comments and white space: a predicate
+    # that accepts more makes statements disappear without an error
+    from .. import langrules
+    langrules.rule_wsc_lang(repo, res, langrules.analyse(repo))
+    # an error the parser's own `except ValueError` clauses can swallow: QuantityError (units refused by the caller's
+    # quantity class) must stay outside that family, or a value loses its units without any error
+    from .. import hookrules
+    hookrules.rule_h3(repo, res)
